@@ -3621,3 +3621,7 @@ mod tree_bins {
         assert_eq!(oops.unwrap(), "hello");
     }
 }
+
+#[cfg(flurry_verif)]
+#[path = "verif_inspect.rs"]
+pub mod verif_inspect;
